@@ -424,14 +424,60 @@ static void contained(const std::string & label, const std::function<void()> & f
   }
 }
 
+// ---- the generator class maps each gA mode onto the sampler of the matching process and nuclide: its events equal those of
+// a dbd_gA object configured directly (datasets differ between all (nuclide, process) pairs)
+#include <bxdecay0/decay0_generator.h>
+static void check_modes(const std::string & tree)
+{
+  using G = bxdecay0::dbd_gA;
+  setenv("BXDECAY0_DBD_GA_DATA_DIR", tree.c_str(), 1);
+  const struct { int mode; G::process_type proc; const char * pname; } MODES[] = {{21, G::PROCESS_G0, "g0"}, {22, G::PROCESS_G2, "g2"}, {23, G::PROCESS_G22, "g22"}, {24, G::PROCESS_G4, "g4"}};
+  for (const char * nuc : {"Se82", "Mo100", "Cd116", "Nd150"})
+    for (auto & md : MODES) {
+      std::string key = fmt("ga:mode:%s:%s", nuc, md.pname);
+      try {
+        bxdecay0::decay0_generator gen;
+        gen.set_decay_category(bxdecay0::decay0_generator::DECAY_CATEGORY_DBD);
+        gen.set_decay_isotope(nuc);
+        gen.set_decay_dbd_level(0);
+        gen.set_decay_dbd_mode((bxdecay0::dbd_mode_type)md.mode);
+        Seq r0;
+        gen.initialize(r0);
+        G direct;
+        direct.set_nuclide(nuc);
+        direct.set_process(md.proc);
+        direct.set_shooting(G::SHOOTING_INVERSE_TRANSFORM_METHOD);
+        direct.initialize();
+        for (uint64_t ph = 1; ph <= 8; ph++) {
+          Seq r1, r2;
+          r1.phase = r2.phase = ph;
+          bxdecay0::event e1, e2;
+          gen.shoot(r1, e1);
+          direct.shoot(r2, e2);
+          g_eval++;
+          g_nontrivial++;
+          bool same = e1.get_particles().size() == e2.get_particles().size() && r1.i == r2.i;
+          for (size_t k = 0; same && k < e1.get_particles().size(); k++) {
+            const auto &p = e1.get_particles()[k], &q = e2.get_particles()[k];
+            same = p.get_code() == q.get_code() && p.get_px() == q.get_px() && p.get_py() == q.get_py() && p.get_pz() == q.get_pz() && p.get_time() == q.get_time();
+          }
+          if (!same) V(key, fmt("decay0_generator(%s, mode %d) does not yield the events of dbd_gA(%s, process %s) on the same deviates (stream %llu)", nuc, md.mode, nuc, md.pname, (unsigned long long)ph));
+        }
+      } catch (std::exception & e) {
+        V(key + ":exception", fmt("%s mode %d: %s", nuc, md.mode, e.what()));
+      }
+    }
+}
+
 int main(int argc, char ** argv)
 {
-  std::string list, out = "/dev/stdout", root;
+  std::string list, out = "/dev/stdout", root, modes_tree;
   for (int i = 1; i < argc; i++) {
     std::string a = argv[i];
     if (a == "--list" && i + 1 < argc) list = argv[++i];
     else if (a == "--out" && i + 1 < argc) out = argv[++i];
     else if (a == "--root" && i + 1 < argc) root = argv[++i];
+    else if (a == "--modes-tree" && i + 1 < argc) modes_tree = argv[++i];
   }
   FILE * f = freopen("/dev/null", "w", stderr);
   (void)f;
@@ -444,6 +490,7 @@ int main(int argc, char ** argv)
       check_dataset(root, ds);
       all.push_back(ds);
     }
+  if (!modes_tree.empty()) contained("generator-level gA modes", [&]() { check_modes(modes_tree); });
   // consecutive datasets of the list differ in size, range or shape: both orders
   for (size_t k = 0; k + 1 < all.size(); k++) {
     contained("reuse " + all[k + 1] + " after " + all[k], [&]() { check_reuse(root, all[k], all[k + 1]); });
